@@ -64,3 +64,148 @@ def run_cases(bases, cases_path, trace, work, seed, ncases, wall_per_case=120):
             f.write(json.dumps(ev, separators=(",", ":")) + "\n")
         start = ci + 1
     return deaths
+
+
+def validate_robust(ctx, trace_path, bases_events, kind):
+    """RobustTrace (TLC) judges every case; a rejected case is recorded and taken out, the rest is validated again."""
+    evs = vlib.read_ndjson(trace_path)
+    rounds = 0
+    while True:
+        tp = trace_path + ".v%d" % rounds
+        vlib.write_ndjson(tp, bases_events + evs)
+        ok, rej, res = vlib.trace_validate("robust", "RobustTrace", tp, timeout=3000)
+        ctx.add_tlc(res)
+        if ok:
+            return
+        idx = rej["idx"] - 1 - len(bases_events)
+        if idx < 0 or idx >= len(evs):
+            raise vlib.ToolError("RobustTrace rejected a base event: %s" % json.dumps(rej)[:400])
+        e = evs[idx]
+        bad = {p: o for p, o in e["outcomes"].items() if o not in ("ok", "err")}
+        rec = {"what": "the reader did not answer with a value or an error", "kind": kind, "class": "reader_" + (sorted(set(bad.values()))[0] if bad else "budget"),
+               "base": e["base"], "faults": e["faults"], "outcomes": e["outcomes"], "panics": e.get("panics", {}), "died": e.get("died"), "stderr": e.get("stderr"),
+               "cpu_ms": e["cpu_ms"], "peak_kb": e["peak_kb"], "problems": [v for tag, v in res.prints if tag == "PROBLEMS"][-1:],
+               "reproduce": "vh c01 run --bases work/C01/bases.ndjson --in <file with this case as one JSON line {base, faults}> --out t --progress p"}
+        ctx.violation(rec)
+        del evs[idx]
+        rounds += 1
+        if rounds > 25:
+            return
+
+
+def run(ctx):
+    thorough = ctx.tier == "thorough"
+    ctx.rule = ("FaultGrammar.tla defines the hostile inputs: base files of known structure (every decoding filter with its parameters, "
+                "predictors, strings with octal and hex escapes, rotated pages, two revisions chained by /Prev with free entries, a "
+                "cross-reference stream with /W /Index and an uncompressed object stream with /N /First, a library-written file) with "
+                "their NUMERIC SLOTS - every number token a reader interprets, labelled by what it feeds - and the faults: a slot "
+                "overwritten by a boundary literal of its class (-1, 0, 2^8, 2^16, 2^31-1, 2^31, 2^32-1, 2^32, 2^63-1, 2^63, 2^64, 2^128, their "
+                "negatives, reals, signs alone; octal 400/777, hex strings of odd length, ASCII85 groups above 2^32-1), truncation, "
+                "deletion, duplication, zeroing, 0xFF-filling and bit-flipping of ranges at 64 positions, structural keywords replaced, "
+                "random bytes with and without a header, and pairs of slot faults.  MCFaults (TLC) enumerates the cases; the harness "
+                "applies each to its base and navigates the result under the five presets (open, page count, metadata, catalog, each page, "
+                "resources, annotations, content streams, text extraction with and without layout, every stream object decoded) on a thread "
+                "with an 8 MB stack, with processor time and peak live memory measured.  RobustTrace (TLC) requires of every recorded case "
+                "that its faults are faults of the grammar and that the answer under every preset is a value or an error - not a panic, "
+                "not a dead process, not a timeout - within 60 s of processor time and 1 GB + 64 x input of live memory.  Non-trivial = "
+                "every case; distinct by hash.")
+    ctx.assumptions = ["the library-written base with object streams is not used: its cross-reference stream has a million entries (object stream number 1000000) and costs 10-20 s per read in the unoptimised build",
+                       "budgets are those of an unoptimised build with overflow and debug assertions on; inputs are a few KB",
+                       "a process killed by a signal (stack overflow, abort on allocation failure) or stuck for 120 s wall time is recorded as the answer of the case in flight"]
+    bases = os.path.join(ctx.work, "bases.ndjson")
+    vlib.vh(["c01", "bases", "--out", bases])
+    base_events = []
+    bt = os.path.join(ctx.work, "bases_tlc.ndjson")
+    with open(bt, "w") as f:
+        for b in vlib.read_ndjson(bases):
+            rec = {"name": b["name"], "nslots": b["nslots"], "classes": [s["class"] for s in b["slots"]]}
+            f.write(json.dumps(rec) + "\n")
+            base_events.append(dict(rec, ev="base"))
+            ctx.extra.setdefault("bases", {})[b["name"]] = {"bytes": b["len"], "slots": b["nslots"], "slot_classes": b["classes"]}
+    res = vlib.tlc("robust", "FaultGrammar", cfg="FaultGrammarMC", workers=1, timeout=300)
+    vlib.tlc_must_pass(res, "FaultGrammarMC")
+    ctx.add_tlc(res)
+    cfg = "MCFaults_thorough" if thorough else "MCFaults"
+    of = os.path.join(ctx.work, "faults.out")
+    res = vlib.tlc("robust", "MCFaults", cfg=cfg, workers=1, env={"BASES": bt}, timeout=1800, out_file=of)
+    vlib.tlc_must_pass(res, cfg)
+    ctx.add_tlc(res)
+    ctx.exhaustive = False
+    n = sum(1 for l in open(of) if l.startswith('<<"REPLAY"'))
+    if n < 1000:
+        raise vlib.ToolError("fault catalogue too small: %d" % n)
+    tp = os.path.join(ctx.work, "robust.ndjson")
+    deaths = run_cases(bases, of, tp, ctx.work, ctx.seed, n)
+    ctx.extra["worker_deaths"] = deaths
+    validate_robust(ctx, tp, base_events, "fault-case")
+    ctx.traces += 1
+    evs = vlib.read_ndjson(tp)
+    if len(evs) != n:
+        raise vlib.ToolError("recorded %d cases of %d" % (len(evs), n))
+    kinds, answers = {}, {}
+    classes = {}
+    slotclass = {b["name"]: b["classes"] for b in base_events}
+    for e in evs:
+        k = "+".join(f["k"] for f in e["faults"])
+        kinds[k] = kinds.get(k, 0) + 1
+        for f in e["faults"]:
+            if f["k"] == "slot":
+                c = slotclass[e["base"]][f["slot"]]
+                classes[c] = classes.get(c, 0) + 1
+        for p, o in e["outcomes"].items():
+            answers[o] = answers.get(o, 0) + 1
+        ctx.count_case({"base": e["base"], "faults": e["faults"]}, True)
+    ctx.extra["cases_by_fault_kind"] = kinds
+    ctx.extra["slot_faults_by_class"] = classes
+    ctx.extra["answers"] = answers
+    ctx.extra["max_cpu_ms"] = max(e["cpu_ms"] for e in evs)
+    ctx.extra["max_peak_kb"] = max(e["peak_kb"] for e in evs)
+    if answers.get("err", 0) == 0 or answers.get("ok", 0) == 0:
+        raise vlib.ToolError("vacuous run: answers %s" % answers)
+    for e in evs:
+        if e["outcomes"]["strict"] == "err" and e["outcomes"]["lenient"] == "ok":
+            ctx.sample({"base": e["base"], "faults": e["faults"], "outcomes": e["outcomes"], "cpu_ms": e["cpu_ms"], "peak_kb": e["peak_kb"]})
+            break
+
+    # B3: the acceptance is not vacuous
+    def panic_answer(evs2):
+        for e in evs2:
+            if e.get("ev") == "case":
+                e["outcomes"]["tolerant"] = "panic"
+                return True
+        return False
+
+    def dead_worker(evs2):
+        for e in evs2:
+            if e.get("ev") == "case":
+                for p in e["outcomes"]:
+                    e["outcomes"][p] = "abort"
+                return True
+        return False
+
+    def over_time(evs2):
+        for e in evs2:
+            if e.get("ev") == "case":
+                e["cpu_ms"] = 61000
+                return True
+        return False
+
+    def over_memory(evs2):
+        for e in evs2:
+            if e.get("ev") == "case":
+                e["peak_kb"] = 3000000
+                return True
+        return False
+
+    def outside_grammar(evs2):
+        for e in evs2:
+            if e.get("ev") == "case" and e["faults"][0]["k"] == "slot":
+                e["faults"][0]["val"] = "12345"
+                return True
+        return False
+
+    small = os.path.join(ctx.work, "robust_b3.ndjson")
+    vlib.write_ndjson(small, base_events + evs[:40])
+    for m, what in ((panic_answer, "answer 'panic' under one preset"), (dead_worker, "process died on a case"), (over_time, "processor time beyond the budget"),
+                    (over_memory, "live memory beyond the budget"), (outside_grammar, "a fault that is not of the grammar")):
+        vlib.expect_reject(ctx, "robust", "RobustTrace", small, m, what, marker="nomarker")
